@@ -165,3 +165,19 @@ Definition expected_touchers : list string :=
     "protocolV2_messagePump" ].
 Lemma src_who_touches_messages : map fst core_touches = expected_touchers.
 Proof. vm_compute. reflexivity. Qed.
+
+(* ---- the same protocol guards the consumer list ----
+   A SUB in progress (Channel.AddClient) is a mover whose "message" is the consumer's
+   registration: it comes from outside and is acknowledged (SUB answered OK) after it is put
+   into the channel's client list; what the closer "flushes" is that list - Channel.exit
+   closes every consumer it finds there.  So a subscriber is either refused or closed with
+   the rest, never left attached to a dead channel. *)
+Definition channel_closer_clients := closer_prog "c.exitMutex" "atomic.CompareAndSwapInt32" "client.Close" "-".
+
+Lemma src_addclient_locked : channel_mover shape_Channel_AddClient = true.
+Proof. vm_compute. reflexivity. Qed.
+
+Lemma src_channel_exit_closes_clients_in_order :
+  channel_closer_clients (path_of false shape_Channel_exit) = channel_exit_prog WMode /\
+  channel_closer_clients (path_of true shape_Channel_exit) = channel_exit_prog WMode.
+Proof. split; vm_compute; reflexivity. Qed.
